@@ -265,36 +265,67 @@ func addSSZModel(P *Program) {
 		return tuple{array(append([]value(nil), hs.chunks[0]...)), iface{}}
 	}
 	h["crypto/sha256.Sum256"] = func(i *interpreter, fr *frame, fn *ssa.Function, args []value) value {
-		data := args[0].([]value)
-		if !containsSym(data) {
-			r := sha256.Sum256(goBytes(data, "sha256.Sum256"))
-			return array(fromBytes(r[:]))
-		}
-		if len(data) == 64 {
-			return array(i.sha64(data[:32], data[32:]))
-		}
-		// other lengths: an uninterpreted function per length
-		n := len(data)
-		name := fmt.Sprintf("SHA256len%d", n)
-		i.w.solver.AddPreamble(fmt.Sprintf("(declare-fun %s ((_ BitVec %d)) (_ BitVec 256))", name, 8*n))
-		var t *Term
-		for k := 0; k < n; k++ {
-			_, bt, _ := intTerm(data[k])
-			if t == nil {
-				t = bt
-			} else {
-				t = newTerm("concat", t.sort+8, t, bt)
-			}
-		}
-		h := App(name, 256, t)
-		out := make(array, 32)
-		for k := 0; k < 32; k++ {
-			hi := 255 - 8*k
-			out[k] = symv{types.Uint8, newTerm(fmt.Sprintf("(_ extract %d %d)", hi, hi-7), 8, h)}
-		}
-		return out
+		return array(i.sha256Of(args[0].([]value)))
+	}
+	// sha256.New(): a native hash.Hash that accumulates what is written
+	h["crypto/sha256.New"] = func(i *interpreter, fr *frame, fn *ssa.Function, args []value) value {
+		return iface{t: sha256HashType, v: nativeHandle{&sha256State{}}}
 	}
 	h[sszPkg+".ErrBytesLengthFn"] = func(i *interpreter, fr *frame, fn *ssa.Function, args []value) value {
 		return i.mkError(fmt.Sprintf("%v (%v): expected %v and %v found", toString(args[0]), "bytes", toString(args[2]), toString(args[1])))
+	}
+}
+
+// sha256Of: SHA-256 of a byte string: the real function on concrete bytes; on symbolic bytes the
+// 64-byte block function SHA64 (shared with merkleisation) or one uninterpreted function per length.
+func (i *interpreter) sha256Of(data []value) []value {
+	if !containsSym(data) {
+		r := sha256.Sum256(goBytes(data, "sha256"))
+		return fromBytes(r[:])
+	}
+	if len(data) == 64 {
+		return i.sha64(data[:32], data[32:])
+	}
+	n := len(data)
+	name := fmt.Sprintf("SHA256len%d", n)
+	i.w.solver.AddPreamble(fmt.Sprintf("(declare-fun %s ((_ BitVec %d)) (_ BitVec 256))", name, 8*n))
+	var t *Term
+	for k := 0; k < n; k++ {
+		_, bt, _ := intTerm(data[k])
+		if t == nil {
+			t = bt
+		} else {
+			t = newTerm("concat", t.sort+8, t, bt)
+		}
+	}
+	h := App(name, 256, t)
+	out := make([]value, 32)
+	for k := 0; k < 32; k++ {
+		hi := 255 - 8*k
+		out[k] = symv{types.Uint8, newTerm(fmt.Sprintf("(_ extract %d %d)", hi, hi-7), 8, h)}
+	}
+	return out
+}
+
+var sha256HashType types.Type = types.NewNamed(types.NewTypeName(0, nil, "verif.sha256Hash", nil), types.NewStruct(nil, nil), nil)
+
+type sha256State struct{ data []value }
+
+func init() {
+	st := func(recv value) *sha256State { return recv.(nativeHandle).v.(*sha256State) }
+	nativeMethods[sha256HashType] = map[string]nativeMethodFn{
+		"Write": func(i *interpreter, recv value, args []value) value {
+			p := args[0].([]value)
+			s := st(recv)
+			s.data = append(s.data, p...)
+			return tuple{len(p), iface{}}
+		},
+		"Sum": func(i *interpreter, recv value, args []value) value {
+			prefix, _ := args[0].([]value)
+			return append(append([]value(nil), prefix...), i.sha256Of(st(recv).data)...)
+		},
+		"Reset":     func(i *interpreter, recv value, args []value) value { st(recv).data = nil; return nil },
+		"Size":      func(i *interpreter, recv value, args []value) value { return 32 },
+		"BlockSize": func(i *interpreter, recv value, args []value) value { return 64 },
 	}
 }
